@@ -45,8 +45,23 @@ def move_aborts(ex, ck):
                        exc_class=EXCS[(k + len(v)) % len(EXCS)], stream="move-abort")
 
 
+def hookless_aborts(ex, ck):
+    """most real interestingness tests define neither init nor cleanup: an abort is restored all the same"""
+    from explore import content
+    from universe import EXCS
+    parts = [b"a\n", b"b\n", b"c\n", b"d\n", b"e\n", b"f\n"]
+    tc = (b"", parts, [True] * len(parts), b"")
+    for hooks in ((), ("init",), ("cleanup",)):
+        for strategy in ("minimize", "minimize-around", "minimize-collapse-brace"):
+            for v in ("YNYNR", "YR", "YNNR", "YYYR", "YNYYNR"):
+                for exc in (EXCS[0], EXCS[2], EXCS[3]):
+                    ex.one(strategy, {}, tc, content(tc), v, exc_class=exc, stream="hookless-abort", model=False, hooks=hooks)
+            ex.one(strategy, {}, tc, content(tc), "YNYNYN", stream="hookless", model=False, hooks=hooks)
+
+
 def extra(ex, ck):
     move_aborts(ex, ck)
+    hookless_aborts(ex, ck)
     """the kill half with REAL processes: `python -m lithium` SIGKILLed while test k is running; the highest
     '*-interesting' copy in the temp dir (else 'original') must be the last accepted version"""
     from concurrent.futures import ThreadPoolExecutor
